@@ -64,3 +64,23 @@ prop("C06",
           "endpoints under random segmentation, read caps and event batching; oracle: no sanitizer report, no crash, no hang, descriptor hygiene, canary served afterwards. non-trivial: >=1 message reached the dispatcher or frame parser; distinct by trace hash",
      nontrivial=[["ledger_request"], ["ws_upgraded"], ["drop:length prefix above the maximum"]],
      required_probes=["ws_upgraded", "drop:length prefix above the maximum", "drop:websocket payload above the maximum", "canary_ok", "short_read", "multi_message_read"])
+
+prop("C07",
+     mix=[("c07", "default", 3), ("c07", "small", 2), ("c06", "default", 1.5), ("c06", "small", 1), ("c05", "default", 1), ("c07", "heapcap", 1)],
+     quick_mix=[("c07", "default", 2), ("c07", "small", 1), ("c06", "default", 1)],
+     quick_s=30, thorough_s=600,
+     rule="connection histories (failed handshakes, every error response, repeated authentication, routing-table overflow, descriptor exhaustion on timer creation and epoll registration, peers vanishing with work in flight) "
+          "followed by closing every connection or by SIGTERM between or inside event batches; three independent accountings (daemon's own counters, arena live set, simulated descriptor/timer/epoll tables) are compared with the idle baseline "
+          "and with empty at exit; every descriptor system call is validated. non-trivial: a routed request, a failed handshake, a re-authentication or an injected descriptor fault occurred; distinct by trace hash",
+     nontrivial=[["timer_armed"], ["reauth_same_user"], ["reauth_other_user"], ["sigterm_mid_plan"], ["sigterm_inside_batch"], ["drop:length prefix above the maximum"], ["ws_upgraded"]],
+     required_probes=["timer_armed", "timed_out", "owner_left_with_inflight", "sigterm_mid_plan", "sigterm_inside_batch", "sigterm_with_clients", "idle_baseline_checked", "exit_checked", "routing_table_full", "authenticated"])
+
+prop("C08",
+     mix=[("c08", "default", 3), ("c08", "localonly", 1.5), ("c08", "small", 1)],
+     quick_mix=[("c08", "default", 2), ("c08", "localonly", 1)],
+     quick_s=30, thorough_s=600,
+     rule="generated credential files (1-5 users, up to 32 groups, DES/MD5/SHA hashes, page-multiple sizes), element access declarations and sequences of authenticate (right, wrong, repeated, other user, after fetch) / fetch / get / set / call "
+          "on raw, unix and WebSocket peers from loopback and foreign origins, with seeded garbage in every fresh allocation; the reference model decides visibility and authorisation; every byte written or logged is scanned for the passwords. "
+          "non-trivial: a peer authenticated and at least one access decision was taken; distinct by trace hash",
+     nontrivial=[["authenticated", "setcall_unauthorized"], ["authenticated", "setcall_authorized"], ["authenticated", "notify_add"], ["wrong_password_or_user", "notify_add"]],
+     required_probes=["authenticated", "wrong_password_or_user", "reauth_other_user", "reauth_same_user", "authenticate_after_fetch", "setcall_unauthorized", "setcall_authorized", "accepted:ws", "accepted:uds"])
